@@ -82,6 +82,44 @@ def ob_rot(ctx):
     return True
 
 
+def ob_rot_characterize(ctx):
+    """the kit-level typing entry point (AbstractPart.characterize, used by the registries) gives the same type,
+    overhangs and target whatever the origin"""
+    from .c05 import user_family
+
+    st = ctx.stack
+    P = ctx.P
+    n = P["n"]
+    if P["src"] == "kit":
+        B = kit_class(st, P["kit"], P["cls"])
+    else:
+        B = user_family(st, P["role"], P["enzyme"])
+    role = role_of(st, B)
+    G = generic_class(st, role, str(getattr(B.cutter, "real", B.cutter)))
+    r = ctx.mk.seq("r", n, "ACGT")
+    unique_at_zero(ctx, G.structure(), r, n)
+    rho = P["lo"] + ctx.mk.pick("rho", P["hi"] - P["lo"])
+    q = ctx.mk.int("q")
+    rec = st.record.CircularRecord(st.Seq(r), id="rec")
+
+    def typed(x):
+        try:
+            return B.characterize(x)
+        except RuntimeError:
+            return None
+
+    a, b = typed(rec), typed(rec >> (rho + q * n))
+    ctx.observe("types", [type(a).__name__, type(b).__name__])
+    ctx.require(type(a) is type(b), "characterize-changes-with-rotation")
+    ctx.witness("typed" if a is not None else "untyped")
+    if a is None:
+        return True
+    ctx.require(seq_eq(a.overhang_start(), b.overhang_start()), "overhang_start-changes-with-rotation")
+    ctx.require(seq_eq(a.overhang_end(), b.overhang_end()), "overhang_end-changes-with-rotation")
+    ctx.require(seq_eq(a.target_sequence().seq, b.target_sequence().seq), "target-changes-with-rotation")
+    return True
+
+
 def obligations(tier, seed):
     obs = []
     slack = tier_pick(tier, [1], [0, 1, 2, 3])
@@ -101,6 +139,23 @@ def obligations(tier, seed):
             obs.append(Ob("generic %s over %s n=%d (room for a third site) rho=%d..%d" % (role, e, n, lo, hi - 1), ob_rot,
                           dict(src="generic", role=role, enzyme=e, n=n, F=F, lo=lo, hi=hi), samples=3, cost=n ** 3 * 2,
                           group="third-site %s %s" % (role, e)))
+    fams = [dict(src="user", role="module", enzyme="BsaI")]
+    if tier != "quick":
+        fams += [dict(src="user", role="vector", enzyme="BsaI"), dict(src="kit", kit="cidar", cls="CIDARPart"),
+                 dict(src="kit", kit="ecoflex", cls="EcoFlexPart")]
+    for fam in fams:
+        try:
+            enz = fam["enzyme"] if fam["src"] == "user" else str(kit_class(st_, fam["kit"], fam["cls"]).cutter)
+            role = fam["role"] if fam["src"] == "user" else role_of(st_, kit_class(st_, fam["kit"], fam["cls"]))
+        except AttributeError:
+            continue
+        n = fixed_letters(generic_class(st_, role, enz).structure()) + 1
+        label = "characterize %s" % ("user family %s over %s" % (role, enz) if fam["src"] == "user" else "%s.%s" % (fam["kit"], fam["cls"]))
+        step = (n + 3) // 4
+        for lo in range(0, n, step):
+            hi = min(n, lo + step)
+            obs.append(Ob("%s n=%d rho=%d..%d" % (label, n, lo, hi - 1), ob_rot_characterize, dict(fam, n=n, lo=lo, hi=hi),
+                          samples=3, cost=n ** 3 * 3, group=label, expect_witness=("typed", "untyped")))
     for params, pat, F in class_params(tier, seed):
         label = "%s.%s" % (params["kit"], params["cls"]) if params["src"] == "kit" else \
             "generic %s over %s" % (params["role"], params["enzyme"])
